@@ -163,7 +163,7 @@ var programLevel = []string{
 
 type uploadSite struct {
 	fn        *ssa.Function
-	upload    ssa.Value // the upload report under construction: a composite literal here, or the result of a helper that builds one
+	upload    ssa.Value  // the upload report under construction: a composite literal here, or the result of a helper that builds one
 	progStore *ssa.Store // upload.Programs = append(upload.Programs, x)
 	x         ssa.Value  // the new ProgramReport appended
 	ctrUpd    []*ssa.MapUpdate
